@@ -8,6 +8,7 @@ mod framing;
 static GLOBAL: alloc::Counting = alloc::Counting;
 mod session;
 mod connect;
+mod negotiate;
 mod ntlm;
 
 use std::io::{self, BufRead, Write};
@@ -15,11 +16,12 @@ use std::io::{self, BufRead, Write};
 fn dispatch(op: &str, args: &[&str]) -> String {
     match op {
         "read" => framing::op_read(args),
-        "write" => framing::op_write(args),
         "conn" => connect::op_conn(args),
         "connector" => connect::op_connector(args),
         "gcc" => connect::op_gcc(args),
         "lic" => connect::op_lic(args),
+        "neg" => negotiate::op_neg(args),
+        "write" => framing::op_write(args),
         "session" => session::op_session(args),
         "md4" | "md5" | "hmac" | "rc4k" | "signkey" | "sealkey" | "mac" => ntlm::op_prim(op, args),
         "sess" => ntlm::op_sess(args),
